@@ -12,7 +12,7 @@ import re
 from .. import common, drive
 from ..avm import asm, interp
 from ..recipe import build as rb
-from ..recipe import gen_ctrl, gen_sub, gen_opt
+from ..recipe import gen_ctrl, gen_sub, gen_opt, gen_abisub
 
 PID = "C03"
 _CFGS = None
@@ -202,6 +202,58 @@ def check_program(prog, cfgs, inputs, out, size, driver):
                         })
 
 
+def check_native(native, cfgs, inputs, out, size):
+    """hand-written ABI-subroutine programs of gen_abisub (recursive ABIReturnSubroutines, by-reference ABI
+    parameters ...): every configuration at which they compile must behave like the pivot configuration"""
+    cnt, oc = out["counters"], out["outcomes"]
+    compiled = []
+    for cfg in cfgs:
+        if cfg.version < 4:
+            continue
+        st, text = gen_abisub.compile_native(native, cfg)
+        cnt["configs"] = cnt.get("configs", 0) + 1
+        if st != "ok":
+            cnt["compile_" + st] = cnt.get("compile_" + st, 0) + 1
+            continue
+        compiled.append((cfg, text, asm.assemble(text)))
+    if len(compiled) < 2:
+        return
+    memo = {}
+    for ii, inp in enumerate(inputs):
+        obs = []
+        for cfg, text, p in compiled:
+            k = (p.stream(), ii)
+            o = memo.get(k)
+            if o is None:
+                res = interp.run(p, drive.ctx_for(inp, cfg), fuel=drive.AVM_FUEL)
+                o = drive.observed_outcome(res, "log")
+                memo[k] = o
+                cnt["executions"] = cnt.get("executions", 0) + 1
+            obs.append(o)
+        base = obs[0]
+        oc[base[0]] = oc.get(base[0], 0) + 1
+        if base[0] == "RESOURCE":
+            continue
+        for (cfg, text, p), o in zip(compiled[1:], obs[1:]):
+            cnt["traces_validated"] = cnt.get("traces_validated", 0) + 1
+            if o[0] == "RESOURCE":
+                continue
+            if (o[0] == "FAIL" and base[0] == "FAIL"):
+                continue
+            if o != base:
+                feats = {}
+                if _optimises(cfg):
+                    c2 = rb.Cfg(cfg.version, cfg.mode, scratch_slots=False, frame_pointers=cfg.frame_pointers)
+                    st2, t2 = gen_abisub.compile_native(native, c2)
+                    feats = optimizer_diff_features(t2 if st2 == "ok" else "", text)
+                out["violations"].append({
+                    "driver": "abi-subs", "size": size,
+                    "title": "abi-subs: behaviour differs from the pivot configuration (%r vs pivot %r)" % (cfg, compiled[0][0]),
+                    "native": native, "cfg": cfg.to_json(), "pivot": compiled[0][0].to_json(), "input": inp,
+                    "expected": base, "observed": o, "teal": text, "pivot_teal": compiled[0][1],
+                    "features": dict(feats, kind="behaviour", why="behaviour differs from the pivot configuration")})
+
+
 def _optimises(cfg):
     """slot optimisation in effect: requested, or the version default (9+)"""
     return cfg.scratch_slots is True or (cfg.scratch_slots is None and cfg.version >= 9)
@@ -216,7 +268,10 @@ def _unopt_text(prog, cfg, tick=None):
 def _worker(items, base):
     out = {"counters": {}, "outcomes": {}, "violations": [], "samples": []}
     for size, prog, inputs, driver in items:
-        check_program(prog, _CFGS, inputs, out, size, driver)
+        if driver == "abi-subs":
+            check_native(prog["native"], _CFGS, inputs, out, size)
+        else:
+            check_program(prog, _CFGS, inputs, out, size, driver)
         out["counters"]["states"] = out["counters"].get("states", 0) + 1
         out["counters"]["transitions"] = out["counters"].get("transitions", 0) + max(1, size)
     if items and base % 1499 == 0:
@@ -287,6 +342,8 @@ def run(tier):
             items.append((n, gen_ctrl.make_program(b, "implicit"), basic, "ctrl-loop"))
     for s, p, i in gen_sub.programs(tier):
         items.append((s, p, i, "subs"))
+    for s, nat, i in gen_abisub.programs(tier):
+        items.append((s, {"native": nat}, i, "abi-subs"))
     k = 3 if tier == "quick" else 4
     for n, p, placement in gen_opt.programs(k):
         items.append((n, p, basic[1:], "opt-" + placement))
@@ -315,7 +372,10 @@ def replay(case):
     cfg = rb.Cfg.from_json(case["cfg"])
     piv = rb.Cfg.from_json(case["pivot"])
     out = {"counters": {}, "outcomes": {}, "violations": [], "samples": []}
-    check_program(case["recipe"], [piv, cfg], [case["input"]], out, 0, "replay")
+    if case.get("native") is not None:
+        check_native(case["native"], [piv, cfg], [case["input"]], out, 0)
+    else:
+        check_program(case["recipe"], [piv, cfg], [case["input"]], out, 0, "replay")
     for v in out["violations"]:
         print("still violates:", v["title"])
     return bool(out["violations"])
